@@ -32,6 +32,10 @@ func runC13(c *Ctx) {
 	c.Rule("C13.O6", "E3,E7e", "every WebSocket read path tests the error of Parse and fails the connection", 3)
 	c.Rule("C13.O8", "E5", "UTF-8 validity is decided on whole messages: the stateless CheckUtf8 is applied only in the message handler (text message, close reason), never to a single frame's payload (a fragment boundary may fall inside a code point)", 1)
 	c.Rule("C13.O10", "E4", "what Parse hands to the message, frame and control handlers belongs to the frame just parsed: every variable passed to handleMessage / handleDataFrame / handleProtocolMessage is assigned again (reset) on every way round the frame loop before it is passed again; a payload left over from the previous control frame is never answered twice", 3)
+	c.Rule("C13.O11", "E9", "a control frame between fragments is not part of the message: the size pre-check adds the buffered message length only for data opcodes (formula of the addition evaluated on opcodes 0,1,2,8,9,10)", 1)
+	c13ControlNotCounted(c)
+	c.Rule("C13.O12", "E4", "a compressed message without payload bytes is legal: the inflate step dereferences the message buffer only behind a nil test whose nil edge allocates", 2)
+	c13EmptyCompressedMessage(c)
 	c13PerFrameOutputs(c)
 	c.Rule("C13.O9", "E4", "the expecting-continuation input of validFrame is the connection's own flag, set on the non-FIN data-frame edge and cleared on the FIN edge (a proxy such as 'a partial message is buffered' is false for an empty first fragment); the flag and the per-message type are kept whichever handlers are installed (their stores are not conditional on messageHandler / dataFrameHandler)", 3)
 	c.Rule("C13.O7", "E4", "default ping handler: WriteMessage(Pong, []byte(arg)); default close handler: close frame with the received code, empty for 1005", 2)
